@@ -45,17 +45,21 @@ Section SingleSound.
     - inversion R; subst. apply Acc. now apply in_rev.
     - inversion Q as [|x l Hit Hq]; subst. destruct Hit as [I0 [done [Ecs Hd]]]. cbn in *.
       destruct rest as [|c rest].
-      + destruct (mretain D reqk m0) as [m'| |] eqn:Rt; cbn in R; try discriminate.
-        destruct (law_retain D Inv goodb LAW h _ _ _ reqk_good I0 Rt) as [I' Ag].
-        destruct (forallb (fun k => match mget D m' k with Some _ => true | None => false end) reqk) eqn:Fb.
-        * eapply IH; [exact Hq| |exact R|exact Hin].
-          intros m1 [Em|H1]; [subst m1|auto]. split; [exact I'|]. split.
-          -- intros c Hc. apply (holds_agree D h c m0 m').
-             ++ intros k Hk. apply Ag. eapply reqk_covers; eauto.
-             ++ apply Hd. rewrite app_nil_r in Ecs. now subst.
-          -- intros k Hk. rewrite forallb_forall in Fb. specialize (Fb _ Hk).
-             destruct (mget D m' k); [discriminate|discriminate].
-        * eapply IH; eauto.
+      + set (missing := filter (fun k => match mget D m0 k with None => true | Some _ => false end) reqk) in R.
+        destruct (bind_all D h m0 missing false) as [bs| |] eqn:B; cbn in R; try discriminate.
+        destruct (rmapM (mretain D reqk) bs) as [bs'| |] eqn:Rt; cbn in R; try discriminate.
+        eapply IH; [exact Hq| |exact R|exact Hin].
+        intros m1 H1. apply in_app_or in H1 as [H1|H1]; auto.
+        apply in_rev in H1. apply filter_In in H1 as [H1 Fb].
+        destruct (rmapM_in _ _ _ _ Rt H1) as [m2 [Hm2 Rm]].
+        destruct (bind_all_le D Inv goodb LAW _ _ _ _ _ _ B Hm2) as [L2 I2].
+        destruct (law_retain D Inv goodb LAW h _ _ _ reqk_good (I2 I0) Rm) as [I' Ag].
+        split; [exact I'|]. split.
+        * intros c Hc. apply (holds_agree D h c m2 m1).
+          -- intros k Hk. apply Ag. eapply reqk_covers; eauto.
+          -- eapply holds_le; [exact L2|]. apply Hd. rewrite app_nil_r in Ecs. now subst.
+        * intros k Hk. rewrite forallb_forall in Fb. specialize (Fb _ Hk).
+          destruct (mget D m1 k); [discriminate|discriminate].
       + destruct (amb D (S f) (cargs c)) as [keys| |] eqn:Ak; cbn in R; try discriminate.
         destruct (bind_all D h m0 keys false) as [cands| |] eqn:B; cbn in R; try discriminate.
         destruct (filter_satb D h c cands) as [ok| |] eqn:Fs; cbn in R; try discriminate.
